@@ -294,7 +294,7 @@ def main():
         'wall_s': round(wall, 2),
         'violations': len(violations),
     }
-    evdir = os.path.join(VERIF, 'build', 'evidence-scratch') if os.environ.get('VERIF_NOEVIDENCE') else os.path.join(VERIF, 'evidence')
+    evdir = os.path.join(os.environ.get('VERIF_BUILD') or os.path.join(VERIF, 'build'), 'evidence-scratch') if os.environ.get('VERIF_NOEVIDENCE') else os.path.join(VERIF, 'evidence')
     os.makedirs(evdir, exist_ok=True)
     with open(os.path.join(evdir, prop + '.json'), 'w') as f:
         json.dump(ev, f, indent=1)
